@@ -23,6 +23,9 @@ pub fn err_json(e: &LinearizationError) -> Value {
             collect_vars(expression, &mut vs);
             json!({"kind":"MissingFiniteBounds","variables":variables,"exprvars":vs})
         }
+        // (an error kind a later version of the compiler adds is a structured error like the others)
+        #[allow(unreachable_patterns)]
+        _ => json!({"kind":"LaterKind"}),
     }
 }
 
